@@ -386,7 +386,8 @@ class Program:
         self.enum_variants = {"Option": [["None", "Some"]], "Result": [["Ok", "Err"]], "ControlFlow": [["Continue", "Break"]],
                               "Ordering": [["Less", "Equal", "Greater"]], "ErrorKind": [["NotFound", "Other"]],
                               "Cow": [["Borrowed", "Owned"]], "Entry": [["Occupied", "Vacant"]],
-                              "Bound": [["Included", "Excluded", "Unbounded"]]}
+                              "Bound": [["Included", "Excluded", "Unbounded"]],
+                              "Component": [["Prefix", "RootDir", "CurDir", "ParentDir", "Normal"]]}
         for k, v in (enum_variants or {}).items():
             if not v:
                 continue
@@ -410,6 +411,13 @@ class Program:
                 src = short_ty(re.sub(r"<.*", "", m.group(1).strip().lstrip("&")))
                 dst = short_ty(re.sub(r"<.*", "", m.group(2).strip()))
                 self.from_index[(src, dst)] = k
+        self.tryfrom_index = {}   # (SrcTy, DstTy) -> fn key: several `impl TryFrom<X> for T` differ only in the trait's argument
+        for k, fn in self.funcs.items():
+            m = re.search(r"<impl at [^>]*>::try_from\(_1: (.*)\) -> (?:std::result::)?Result<([^,<]+)", fn.header)
+            if m:
+                src = short_ty(re.sub(r"<.*", "", m.group(1).strip().lstrip("&")))
+                dst = short_ty(m.group(2).strip())
+                self.tryfrom_index[(src, dst)] = k
 
     def mk_struct(self, _struct_name, **fields):
         name = _struct_name
@@ -1007,8 +1015,10 @@ class Program:
         short = "::".join(key.split("::")[-2:])
         for k in (key, short, key.split("::")[-1]):
             if k in self.summaries:
-                ctx.summ_used.add(k)
-                return self.summaries[k](ctx, Call(self, f, callee, key, selfty, gen, argv, ctx.tyenv, term))
+                r = self.summaries[k](ctx, Call(self, f, callee, key, selfty, gen, argv, ctx.tyenv, term))
+                if r is not NotImplemented:       # a summary may decline (type-specific ones): fall through to the MIR impl
+                    ctx.summ_used.add(k)
+                    return r
         name = self.resolve_local(callee) if not callee.startswith("<") else self.resolve_trait_local(callee, selfty, key)
         if name is None and callee.startswith("<") and argv:
             # trait method on a generic / dyn receiver: dispatch on the runtime type of the receiver value
@@ -1032,6 +1042,13 @@ class Program:
             return None
         ty = re.sub(r"<.*", "", strip_generics(selfty).lstrip("&").replace("mut ", "")).split("::")[-1]
         parts = key.split("::")
+        if key == "TryFrom::try_from":
+            m = re.search(r" as (?:std::convert::|core::convert::)?TryFrom<(.+)>>::try_from", callee)
+            if m:
+                src = short_ty(re.sub(r"<.*", "", m.group(1).strip().lstrip("&")))
+                hit = self.tryfrom_index.get((src, ty))
+                if hit:
+                    return hit
         if len(parts) > 2:
             base = self.impl_index.get((ty, parts[0], parts[1]))
             if base:
